@@ -3,9 +3,16 @@
 package routingtable
 
 import (
+	"context"
+
+	"github.com/buraksezer/consistent"
+	"github.com/hashicorp/memberlist"
 	"github.com/olric-data/olric/config"
 	"github.com/olric-data/olric/internal/cluster/partitions"
 	"github.com/olric-data/olric/internal/discovery"
+	"github.com/olric-data/olric/internal/protocol"
+	"github.com/olric-data/olric/internal/server"
+	"github.com/olric-data/olric/pkg/flog"
 	"github.com/tidwall/redcon"
 )
 
@@ -64,4 +71,58 @@ func VerifC16_LengthOfPart() {
 	r.lengthOfPartCommandHandler(conn, redcon.Command{Args: args})
 	vpAssert(conn.replies == 1, "handler-replies-once")
 	vpReach("end")
+}
+
+// ---- helpers for harnesses of other packages (dmap) that want real routing-table behaviour on a loopback cluster
+
+// VerifRingHasher is a table-driven hash for the consistent-hashing ring (positions chosen by the harness).
+type VerifRingHasher struct{ Pos map[string]uint64 }
+
+func (h VerifRingHasher) Sum64(b []byte) uint64 { return h.Pos[string(b)] }
+
+// VerifAttach gives the routing table a membership view, a ring and an RPC client (the caller's loopback client).
+func (r *RoutingTable) VerifAttach(live []discovery.Member, ring VerifRingHasher, client *server.Client, lg *flog.Logger) {
+	var nodes []*memberlist.Node
+	var cms []consistent.Member
+	for _, m := range live {
+		nodes = append(nodes, discovery.VerifNode(m))
+		cms = append(cms, m)
+		r.members.Add(m)
+	}
+	r.config.Hasher = ring
+	r.log = lg
+	r.discovery = discovery.VerifNew(r.this, memberlist.VerifNew(nodes), r.config, lg)
+	r.consistent = consistent.New(cms, consistent.Config{Hasher: ring, PartitionCount: int(r.config.PartitionCount), ReplicationFactor: 1, Load: 4})
+	r.client = client
+	r.ctx = context.Background()
+	r.joined = make(chan struct{})
+	close(r.joined)
+	r.numMembers = int32(len(live))
+}
+
+// VerifMemberLeft applies what the member-list reports when a member is gone: the real cluster-event handler runs.
+func (r *RoutingTable) VerifMemberLeft(gone discovery.Member, stillLive []discovery.Member) {
+	var nodes []*memberlist.Node
+	for _, m := range stillLive {
+		nodes = append(nodes, discovery.VerifNode(m))
+	}
+	r.discovery.VerifMemberlist().VerifSet(nodes)
+	meta, _ := gone.Encode()
+	r.processClusterEvent(&discovery.ClusterEvent{Event: memberlist.NodeLeave, NodeName: gone.Name, NodeMeta: meta})
+	r.numMembers = int32(len(stillLive))
+}
+
+func (r *RoutingTable) VerifUpdateRouting() { r.updateRouting() }
+
+// VerifHandle dispatches the routing table's internal commands.
+func (r *RoutingTable) VerifHandle(name string, conn redcon.Conn, cmd redcon.Command) bool {
+	switch name {
+	case protocol.Internal.LengthOfPart:
+		r.lengthOfPartCommandHandler(conn, cmd)
+	case protocol.Internal.UpdateRouting:
+		r.updateRoutingCommandHandler(conn, cmd)
+	default:
+		return false
+	}
+	return true
 }
